@@ -122,7 +122,7 @@ Definition truthy (o : option bytes) : option bytes :=
 
 Definition te_chunked (h : headers) : bool :=
   match truthy (hget h s_te) with
-  | Some v => bytes_eqb (lowerk v) s_chunked
+  | Some v => bytes_eqb (lowerk (strip ws_l1 v)) s_chunked     (* .strip().lower() == "chunked" (2592cf7) *)
   | None => false
   end.
 
